@@ -2,7 +2,7 @@
     Statements only; proofs in Proofs/Builder_Proofs.v. *)
 From Coq Require Import ZArith QArith Qround Qabs List Lia.
 From SB Require Import Base.Prelude Base.Num Base.F32 Gen.Generated Model.Codec Model.Traj Model.Utils Model.Rth Model.Builder
-  Proofs.Builder_Proofs.
+  Proofs.Builder_Proofs Proofs.Utils_Proofs.
 Import ListNotations.
 Local Open Scope Z_scope.
 
@@ -32,16 +32,27 @@ Theorem phases_durations : forall e start bytes,
 Proof. exact Builder_Proofs.phases_durations. Qed.
 Print Assumptions phases_durations.
 
-(** the scale of the generated trajectory is the smallest that holds every
-    coordinate involved *)
+(** the scale of the generated trajectory holds the start coordinates (these
+    are binary32 numbers in the C code; for arbitrary rationals only up to
+    the rounding of the division by 32767: [conversion_scale_any]) *)
 Theorem conversion_scale : forall e start bytes tr,
+  (rnd32 (vx start) == vx start)%Q -> (rnd32 (vy start) == vy start)%Q -> (rnd32 (vz start) == vz start)%Q ->
   rth_to_trajectory e start = Ok bytes -> traj_init bytes = Ok tr ->
   1 <= t_scale tr <= 127 /\
   (Qabs' (vx start) <= inject_Z (t_scale tr * 32767))%Q /\
   (Qabs' (vy start) <= inject_Z (t_scale tr * 32767))%Q /\
   (Qabs' (vz start) <= inject_Z (t_scale tr * 32767))%Q.
-Proof. exact Builder_Proofs.conversion_scale. Qed.
+Proof. exact (Builder_Proofs.conversion_scale_b32 Utils_Proofs.rnd32_error Utils_Proofs.scale_update_minimal'). Qed.
 Print Assumptions conversion_scale.
+
+Theorem conversion_scale_any : forall e start bytes tr,
+  rth_to_trajectory e start = Ok bytes -> traj_init bytes = Ok tr ->
+  1 <= t_scale tr <= 127 /\
+  (Qabs' (vx start) * (1 - (1 # 16777216)) <= inject_Z (t_scale tr * 32767))%Q /\
+  (Qabs' (vy start) * (1 - (1 # 16777216)) <= inject_Z (t_scale tr * 32767))%Q /\
+  (Qabs' (vz start) * (1 - (1 # 16777216)) <= inject_Z (t_scale tr * 32767))%Q.
+Proof. exact (Builder_Proofs.conversion_scale' Utils_Proofs.rnd32_error). Qed.
+Print Assumptions conversion_scale_any.
 
 Theorem conversion_unknown_action : forall e start,
   re_action e <> SB_RTH_ACTION_LAND -> re_action e <> SB_RTH_ACTION_GO_TO_KEEPING_ALTITUDE ->
@@ -51,7 +62,7 @@ Proof. exact Builder_Proofs.conversion_unknown_action. Qed.
 Print Assumptions conversion_unknown_action.
 
 Example conversion_example :
-  let e := mkrthe (FVal (5 # 1)) SB_RTH_ACTION_GO_TO_WITH_ALTITUDE (FVal (70 # 1)) (40000 # 1, -(1000 # 1)) (3000 # 1)
+  let e := mkrthe (FVal (5 # 1)) SB_RTH_ACTION_GO_TO_WITH_ALTITUDE (FVal (70 # 1)) ((40000 # 1)%Q, (- (1000 # 1))%Q) (3000 # 1)
                   (FVal (2 # 1)) (FVal (3 # 1)) (500 # 1) (FVal (4 # 1)) in
   match rth_to_trajectory e (mkvec4 (10 # 1) (20 # 1) (1000 # 1) (0 # 1)) with
   | Ok bytes => match traj_init bytes with
@@ -61,3 +72,4 @@ Example conversion_example :
   | _ => False
   end.
 Proof. exact Builder_Proofs.conversion_example. Qed.
+Print Assumptions conversion_example.
